@@ -14,7 +14,8 @@ fn determinism<T: Dom>(outer: VK, inner: Option<VK>, k: usize, extra_last: Vec<u
     let mut a = mk::<T>(&outer, &inner); // reference, polled once per step
     let mut b = mk::<T>(&outer, &inner); // twin on which last() is called extra times
     // twins that are NOT polled until a given step (a view whose last() has side effects differs from them)
-    let first_poll = [k - 1, k / 2];
+    let mut first_poll = vec![1usize.min(k - 1), 2usize.min(k - 1), 3usize.min(k - 1), k / 2, k - 1];
+    first_poll.sort_unstable(); first_poll.dedup();
     let mut unpolled: Vec<DynV<T>> = first_poll.iter().map(|_| mk::<T>(&outer, &inner)).collect();
     // clones of `a` taken after steps 0, 1, k/2 and the seed-chosen step, fed every later input
     let mut clone_steps = vec![0usize, 1, k / 2, clone_at];
@@ -71,7 +72,7 @@ fn clone_isolated<T: Dom>(outer: VK, k: usize, clone_at: usize) {
 }
 pub fn units(tier: Tier, seed: u64) -> Vec<Unit> {
     let q = tier == Tier::Quick;
-    let ns: Vec<usize> = if q { vec![2] } else { vec![2, 3] };
+    let ns: Vec<usize> = vec![2, 3];
     let mut rng = Rng::new(seed ^ 0xC17);
     let mut u = vec![];
     let mut seen = std::collections::HashSet::new();
@@ -82,6 +83,8 @@ pub fn units(tier: Tier, seed: u64) -> Vec<Unit> {
         for vk in vs {
             if !seen.insert(vk.name()) { continue; }
             let heavy = matches!(vk, VK::NET(_) | VK::EFT(..) | VK::HLNormalizer(_) | VK::LaguerreRSI(_));
+            // quick tier at N=3: only the views with few comparisons per step
+            if q && n == 3 && (heavy || matches!(vk, VK::Rsi(_) | VK::MyRSI(_) | VK::Min(_) | VK::Max(_) | VK::BinaryEntropy(_) | VK::CTI(_) | VK::PFE(..) | VK::TrendFlex(_) | VK::ReFlex(_) | VK::CoG(_) | VK::Roc(_))) { continue; }
             let wl = match &vk { VK::Roofing(a, b) => a + b + 1, _ => n };
             let k = if heavy { (wl + 3).min(6) } else { 2 * wl + 3 };
             let pattern: Vec<usize> = (0..4).map(|_| rng.below(4)).collect();
@@ -109,7 +112,7 @@ pub fn units(tier: Tier, seed: u64) -> Vec<Unit> {
 pub fn meta() -> Meta {
     Meta {
         functions: vec!["every view of the crate ::{new,update,last,clone} (catalogue in engine/src/views.rs), over Echo and in seeded two-level chains"],
-        bounds: "N = 2 (quick) / {2,3} (thorough), raised to the view's minimum; k = 2N+3 (<= 6 for heavily branching views); twins first polled only at steps k/2 and k-1; clones taken after steps 0, 1, k/2 and a VERIF_SEED-chosen step; VERIF_SEED also chooses the pattern of extra last() calls (0..3 per step); 16 / 80 seeded two-level chains; all comparison outcomes up to 6000 paths per unit",
+        bounds: "N in {2,3} (quick: N=3 only for the views with few comparisons per step), raised to the view's minimum; k = 2N+3 (<= 6 for heavily branching views); twins first polled only at steps 1, 2, 3, k/2 and k-1; clones taken after steps 0, 1, k/2 and a VERIF_SEED-chosen step; VERIF_SEED also chooses the pattern of extra last() calls (0..3 per step); 16 / 80 seeded two-level chains; all comparison outcomes up to 6000 paths per unit",
         outside: vec!["Add (does not implement Clone): twin and purity obligations only via C14/C01", "chains deeper than two, N > 3"],
         assumptions: vec!["term identity: identical terms are bit-identical in every float format; where two outputs are equal in the reals but not term-identical this is counted separately in the evidence (equal_in_reals_only)"],
     }
